@@ -93,6 +93,32 @@ def check_filter(case):
     return v, 'ok' if not v else 'violated', 0 < len(exp) < len(rws)
 
 
+STR_KEYS = ['a:b', 'a', 'b:c', 'c', 'None', None, '1', 'a:b:c']
+
+
+def check_dedup_str(case):
+    """Text keys (two-field primary key) that run into each other when glued together."""
+    rws = [{'a': a, 'b': b, 'id': i} for i, (a, b) in enumerate(case['rows'])]
+    other = [{'a': 'a', 'b': 'b:c', 'id': 100}]
+    st = mkstate([('other', [('a', 'string'), ('b', 'string'), ('id', 'integer')], other),
+                  ('t', [('a', 'string'), ('b', 'string'), ('id', 'integer')], rws)])
+    for r in st.desc['resources']:
+        r['schema']['primaryKey'] = ['a', 'b']
+    label = 'deduplicate with primaryKey [a, b] on text keys %r' % (case['rows'],)
+    kind, out = run_steps(st, core.dataflows.deduplicate(resources='t'))
+    if kind == 'exc':
+        return [('raises/deduplicate', '%s raises %s: %s' % (label, core.exc_sig(out), str(out)[:80]))], 'violated', True
+    seen, exp = set(), []
+    for r in rws:
+        k = (r['a'], r['b'])
+        if k in seen:
+            continue
+        seen.add(k)
+        exp.append(r)
+    v = common(label, 'deduplicate', out, other, exp)
+    return v, 'ok' if not v else 'violated', True
+
+
 def check_dedup(case):
     pk = case['pk']
     st, rws, other = mk(case['rows'], pk)
@@ -196,6 +222,11 @@ def cases(tier):
         for rows in itertools.permutations(special, n):
             for pk in (['a'], ['a', 'b'], ['b', 'a']):
                 out.append({'proc': 'dedup', 'rows': [list(r) for r in rows], 'pk': pk})
+    pairs = [(a, b) for a in STR_KEYS for b in STR_KEYS]
+    for p1 in pairs:
+        for p2 in pairs:
+            if p1 != p2 and ':'.join(map(str, p1)) == ':'.join(map(str, p2)):
+                out.append({'proc': 'dedup_str', 'rows': [list(p1), list(p2), list(p1)]})
     maxrows = 3 if tier == 'quick' else 4
     for rows in tables(maxrows):
         conds = list(CONDS) if len(rows) <= 3 else ['eq2', 'both', 'ne2', 'eq-same-field']
@@ -219,6 +250,8 @@ def cases(tier):
                 continue
             if any(f.startswith('x') for f in fs):
                 fieldsets.append(list(fs))
+            elif n == 2:
+                fieldsets.append(list(fs))       # nothing to unpivot in a selected resource: it ends up without rows
     for fs in fieldsets:
         for spec in SPECS:
             for nrows in (0, 1, 2, 3):
